@@ -1030,6 +1030,13 @@ func c08RunCase(c c08Case, ents []pb.Entry, a *c08TwinA) (out c08Out, fail *c08F
 		}
 		defer func() {
 			if fail == nil && !applied && c.Kind != kCommitFail {
+				if c.At == atAfterSync {
+					// the save never went through StateMachine.sync(): the queued
+					// updates were applied after the save instead; whether that save
+					// is recoverable was decided by the crash/restart route above
+					c08Paths["path_after_sync_point_not_reached"]++
+					return
+				}
 				fail = c.fail("harness", "interleaving hook did not run")
 			}
 		}()
